@@ -82,6 +82,8 @@ def divguard(rep: Report, repo: Repo, kernels: Dict[str, Kernel], names: Optiona
         if name not in kernels:
             raise AnalysisError(f"missing anchor: kernel {name}")
         k = kernels[name]
+        if k.inlined:
+            continue        # its divisions are judged in the callers, where the guards are
         da = DivAnalysis(k.node, k.file, array_params_of(k))
         for d in da.run():
             out.append(d)
@@ -382,8 +384,32 @@ def r_truthy(rep: Report, repo: Repo, cls: str, method: str, names: Iterable[str
                f"helpers followed: {n_calls}", f"{where}: truth-value uses of {sorted(names)}")
 
 
-def guard_chain(fn: ast.AST, node: ast.AST) -> List[tuple]:
-    """(test text, arm) of every If / loop / try that encloses `node` inside `fn`, outermost first."""
+def canon_test(test: ast.AST) -> tuple:
+    """(text, polarity): `a != b` -> (`a == b`, False), `x is not None` -> (`x is None`, False), `not t` -> (t, False); so the two ways of writing a
+    two-way decision (condition / negated condition with swapped arms) give the same pair for the same arm."""
+    if isinstance(test, ast.UnaryOp) and isinstance(test.op, ast.Not):
+        t, pol = canon_test(test.operand)
+        return t, not pol
+    if isinstance(test, ast.Compare) and len(test.ops) == 1:
+        op = test.ops[0]
+        flip = {ast.NotEq: ast.Eq, ast.IsNot: ast.Is, ast.NotIn: ast.In}
+        if type(op) in flip:
+            pos = ast.Compare(left=test.left, ops=[flip[type(op)]()], comparators=test.comparators)
+            return ast.unparse(pos), False
+    return ast.unparse(test), True
+
+
+def _ends_in_exit(body: List[ast.stmt]) -> bool:
+    return bool(body) and isinstance(body[-1], (ast.Return, ast.Raise, ast.Continue, ast.Break))
+
+
+def guard_chain(fn: ast.AST, node: ast.AST, canonical: bool = False) -> List[tuple]:
+    """(test text, arm) of every If / loop / try that encloses `node` inside `fn`, outermost first.
+
+    With canonical=True: tests are polarity-normalised (canon_test) and an earlier sibling `if c: ... return/raise/continue` (a guard clause)
+    contributes (c, False) to everything after it in its block - the chain is then the same for `if c: A else: B` and `if not c: B; return` + A."""
+    if canonical:
+        return _guard_chain_canonical(fn, node)
     par: Dict[int, ast.AST] = {}
     for p_ in ast.walk(fn):
         for ch in ast.iter_child_nodes(p_):
@@ -460,3 +486,102 @@ def data_provenance(fn: ast.AST, expr: ast.AST, _seen=None) -> List[str]:
                 return data_provenance(fn, expr.func.value, _seen)
         return [txt[:100]]
     return [txt[:100]]
+
+
+def flatten_return(fn: ast.FunctionDef) -> Optional[str]:
+    """The returned expression of a straight-line method with every local replaced by its definition, in program order
+    (`a = f(x); a = g(a); return a + h` -> `g(f(x)) + h`). None when the body is not straight-line assignments + one return.
+    Temporaries introduced, removed, renamed or re-used by a refactoring do not change the result."""
+    import copy
+    env: Dict[str, ast.AST] = {}
+
+    class Sub(ast.NodeTransformer):
+        def visit_Name(self, node):
+            if isinstance(node.ctx, ast.Load) and node.id in env:
+                return copy.deepcopy(env[node.id])
+            return node
+    for st in fn.body:
+        if isinstance(st, ast.Expr) and isinstance(st.value, ast.Constant):
+            continue
+        if isinstance(st, ast.If) and all(isinstance(x, ast.Raise) for x in st.body) and not st.orelse:
+            continue        # validation preamble
+        if isinstance(st, ast.Assign) and len(st.targets) == 1 and isinstance(st.targets[0], ast.Name):
+            env[st.targets[0].id] = Sub().visit(copy.deepcopy(st.value))
+            continue
+        if isinstance(st, ast.Return) and st.value is not None:
+            return ast.unparse(Sub().visit(copy.deepcopy(st.value)))
+        return None
+    return None
+
+
+def _guard_chain_canonical(fn: ast.AST, node: ast.AST) -> List[tuple]:
+    par: Dict[int, ast.AST] = {}
+    for p_ in ast.walk(fn):
+        for ch in ast.iter_child_nodes(p_):
+            par[id(ch)] = p_
+    chain: List[tuple] = []
+    child, cur = node, par.get(id(node))
+    while cur is not None:
+        # earlier siblings of `child` in whichever statement list of `cur` holds it
+        for fld in ("body", "orelse", "finalbody"):
+            blk = getattr(cur, fld, None)
+            if isinstance(blk, list) and any(child is b for b in blk):
+                idx = [i for i, b in enumerate(blk) if child is b][0]
+                sib = []
+                for b in blk[:idx]:
+                    if isinstance(b, ast.If) and _ends_in_exit(b.body) and not b.orelse:
+                        t, pol = canon_test(b.test)
+                        sib.append((t, not pol))
+                    elif isinstance(b, ast.If) and b.orelse and _ends_in_exit(b.orelse) and not _ends_in_exit(b.body):
+                        t, pol = canon_test(b.test)
+                        sib.append((t, pol))
+                chain = sib + chain if False else chain
+                pending = sib
+                break
+        else:
+            pending = []
+        own = []
+        if isinstance(cur, ast.If):
+            t, pol = canon_test(cur.test)
+            if any(child is b for b in cur.body):
+                own = [(t, pol)]
+            elif any(child is b for b in cur.orelse):
+                own = [(t, not pol)]
+        elif isinstance(cur, (ast.For, ast.While)) and any(child is b for b in cur.body):
+            own = [(f"loop {ast.unparse(cur.target) if isinstance(cur, ast.For) else ast.unparse(cur.test)}", True)]
+        elif isinstance(cur, ast.Try):
+            own = [("try", True)] if any(child is b for b in cur.body) else [("except", True)] if any(child is h for h in cur.handlers) else []
+        chain = own + pending + chain
+        if cur is fn:
+            break
+        child, cur = cur, par.get(id(cur))
+    # validation guard clauses that raise are not part of a dispatch decision
+    return chain
+
+
+def resolve_local(fn: ast.AST, expr: ast.AST, depth: int = 4) -> ast.AST:
+    """`expr` with every local that has exactly one plain assignment in `fn` replaced by that assignment's value (recursively):
+    a rule then sees the same expression whether or not the code names an intermediate value."""
+    import copy
+    defs: Dict[str, List[ast.AST]] = {}
+    for st in ast.walk(fn):
+        if isinstance(st, ast.Assign) and len(st.targets) == 1 and isinstance(st.targets[0], ast.Name):
+            defs.setdefault(st.targets[0].id, []).append(st.value)
+        elif isinstance(st, (ast.AugAssign, ast.For, ast.NamedExpr, ast.With)):
+            for n in ast.walk(st.target if hasattr(st, "target") else st):
+                if isinstance(n, ast.Name) and isinstance(n.ctx, ast.Store):
+                    defs.setdefault(n.id, []).extend([None, None])
+    params = {a.arg for a in getattr(fn, "args", ast.arguments(args=[], posonlyargs=[], kwonlyargs=[], kw_defaults=[], defaults=[])).args}
+
+    class Sub(ast.NodeTransformer):
+        def visit_Name(self, node):
+            if isinstance(node.ctx, ast.Load) and node.id not in params and len(defs.get(node.id, [])) == 1 and defs[node.id][0] is not None:
+                return copy.deepcopy(defs[node.id][0])
+            return node
+    e = copy.deepcopy(expr)
+    for _ in range(depth):
+        before = ast.dump(e)
+        e = Sub().visit(e)
+        if ast.dump(e) == before:
+            break
+    return e
